@@ -329,4 +329,10 @@ example : bdisciplined demoTab (BSt.init (CSt.init demoS [3] [])) demoBk = true 
     [1, 2, 3].map (readFresh demoTab (image (brun demoTab (BSt.init (CSt.init demoS [3] [])) demoBk))) =
       [.ok 1, .ok 2, .missing] := by decide +kernel
 
+/-- the side conditions of the Level-C theorems (`safe_packAll`, `safe_clean`, `safe_repackPack`) are met by the demonstration
+    states: two loose objects without rows to pack; after packing, both have rows; no pack or row uses the reserved id -/
+example : (∀ k ∈ [1, 2], hasLoose demoS k = true ∧ hasRow demoS k = false) ∧ [1, 2].Nodup ∧
+    (∀ k ∈ [1, 2], hasRow demoS2 k = true) ∧ (rowsOfPack demoS2.rows 0).length = 2 ∧
+    (demoS2.packs.all (fun e => e.1 != tmpId) && demoS2.rows.all (fun r => r.pack != tmpId)) = true := by decide +kernel
+
 end Dos.Props
